@@ -908,9 +908,15 @@ class PytatoKeyBuilder(LoopyKeyBuilder):
     update_for_uint64 = update_for_numpy_integer
 
     def update_for_numpy_scalar(self, key_hash: Any, key: Any) -> None:
+        import numpy as np
+        if isinstance(key, np.integer):
+            # integer types whose name is not one of the above (np.longlong,
+            # np.ulonglong, ...)
+            self.update_for_numpy_integer(key_hash, key)
+            return
         # The bytes alone do not identify a scalar: np.float64(2.0) and
         # np.int64(4611686018427387904) (or a complex64 and a float64) share
-        # them. (NumPy integers never get here, see above.)
+        # them.
         self.rec(key_hash, key.dtype)
         super().update_for_numpy_scalar(key_hash, key)
 
